@@ -173,7 +173,7 @@ func Intersection(limit int, sets ...*Set) (*Set, bool) {
 	// Use divide & conquer to get the set intersections
 	switch len(sets) {
 	case 1:
-		return sets[0], false
+		return NewSet(sets[0].GetAll()), false
 	case 2:
 		intersection := NewSet([]string{})
 		var limitReached bool
@@ -203,10 +203,12 @@ func Intersection(limit int, sets ...*Set) (*Set, bool) {
 // Union takes a slice of sets and generates a union
 func Union(sets ...*Set) *Set {
 	switch len(sets) {
+	case 0:
+		return NewSet([]string{})
 	case 1:
-		return sets[0]
+		return NewSet(sets[0].GetAll())
 	case 2:
-		union := sets[0]
+		union := NewSet(sets[0].GetAll())
 		union.Add(sets[1].GetAll())
 		return union
 	default:
